@@ -80,6 +80,14 @@ def sliceToG (t : Tup) (i : Int) : Tup :=
   let j := if i < 0 then i + t.length else i
   t.take j.toNat
 
+/-- `t[i:j]` for arbitrary ints: each bound counted from the end when negative, clipped to `0 .. len(t)`; empty when the
+    bounds cross -/
+def normIdx (n : Nat) (i : Int) : Nat := if i < 0 then (i + n).toNat else min i.toNat n
+def sliceG (t : Tup) (i j : Int) : Tup :=
+  let lo := normIdx t.length i
+  let hi := normIdx t.length j
+  (t.drop lo).take (hi - lo)
+
 /-- `a ** b` for `b ≥ 0` (the translated functions raise to small non-negative powers; a negative exponent would be a
     float in Python and is refused by the translator's typing: the driver answers `.lib "TypeError"`) -/
 def pow (a b : Int) : M Int := if b < 0 then throw (.lib "TypeError") else pure (a ^ b.toNat)
